@@ -33,7 +33,11 @@ def build_client(b, root, lv, lk, fn, sto, cp, n, off):
     flags = ["-" + lv, "-w", "-DFN=%d" % fn, "-DSTORAGE=%d" % STO[sto]] + build._includes()
     if cp:
         flags += ["-DCONSTP", "-DCN=%d" % n, "-DCOFF=%d" % off, "-DCV=%d" % VALUE[fn]]
-    if lk == "lto":
+    if lk == "clto":       # clang, link-time optimisation over LLVM bitcode
+        cmd = ["clang", "-flto"] + flags + [os.path.join(HD, "client.c"), obs, b["clto_" + lv], "-Wl,--wrap=free", "-lm", "-o", exe + ".tmp%d" % os.getpid()]
+    elif lk == "cstatic":  # clang-compiled caller, the library as shipped
+        cmd = ["clang"] + flags + [os.path.join(HD, "client.c"), obs, b["slack"], "-Wl,--wrap=free", "-lm", "-o", exe + ".tmp%d" % os.getpid()]
+    elif lk == "lto":
         cmd = ["gcc", "-flto"] + flags + [os.path.join(HD, "client.c"), obs, b["lto_" + lv], "-Wl,--wrap=free", "-lm", "-o", exe + ".tmp%d" % os.getpid()]
     elif lk == "static":
         cmd = ["gcc"] + flags + [os.path.join(HD, "client.c"), obs, b["slack"], "-Wl,--wrap=free", "-lm", "-o", exe + ".tmp%d" % os.getpid()]
@@ -49,7 +53,7 @@ def run(prop, tier, seed, workdir):
     res = Result("erase", level="exploration")
     quick = tier == "quick"
     levels = ["O0", "O2", "O3"] if quick else ["O0", "O1", "O2", "O3", "Os"]
-    links = ["static", "lto"] if quick else ["static", "lto", "shared"]
+    links = ["static", "lto", "clto"] if quick else ["static", "lto", "shared", "clto", "cstatic"]
     ns = [1, 3, 8, 24, 31, 100] if quick else [1, 2, 3, 4, 7, 8, 9, 15, 16, 17, 24, 31, 32, 33, 64, 100, 127]
     offs = [0, 1, 3] if quick else [0, 1, 2, 3, 5, 8]
     cfg = os.path.join(workdir, "erase.cfg")
@@ -65,7 +69,7 @@ def run(prop, tier, seed, workdir):
     r2 = tlc.model_check("Erase", cfg2, workdir, workers=4)
     if not r2["violated"]:
         raise tlc.TLCError("self-test: the optimiser model never removes a plain visible store")
-    flavours = ["slack"] + ["lto_" + lv for lv in levels] + (["so"] if "shared" in links else [])
+    flavours = ["slack"] + ["lto_" + lv for lv in levels] + (["clto_" + lv for lv in levels] if "clto" in links else []) + (["so"] if "shared" in links else [])
     b = build.ensure(flavours, [])
     root = b["root"]
     obsd = os.path.join(root, "erase-" + build.harness_hash())
@@ -125,7 +129,7 @@ def run(prop, tier, seed, workdir):
              "non-trivial = client binaries" % (levels, links, len(states), ns, offs, len(cells)),
         samples=[json.loads(events[i]) | {"obs": "..."} for i in (0, len(events) // 2, len(events) - 1)],
         exhaustive=False, checker_cmd="tlc Erase.tla (INVARIANT Safe; AlwaysErased must fail); tlc TraceErase.tla")
-    res.assumptions = ["gcc 12 on x86-64 with these flag sets; clang is not part of the matrix", "reading a popped stack frame / a block inside free() is outside the C abstract machine - it is how the observer sees what an attacker with memory access would",
+    res.assumptions = ["gcc 12 and clang 14 on x86-64 with these flag sets (link modes clto / cstatic are the clang cells)", "reading a popped stack frame / a block inside free() is outside the C abstract machine - it is how the observer sees what an attacker with memory access would",
                        "the address of the buffer escapes to the opaque observer before the erase (as it would to any I/O routine that filled it)"]
     return res
 
@@ -133,7 +137,7 @@ def run(prop, tier, seed, workdir):
 def replay(rp, workdir):
     res = Result("erase-replay", level="exploration")
     key = tuple(rp["key"])
-    flavours = ["slack"] + (["lto_" + key[0]] if key[1] == "lto" else []) + (["so"] if key[1] == "shared" else [])
+    flavours = ["slack"] + (["lto_" + key[0]] if key[1] == "lto" else []) + (["clto_" + key[0]] if key[1] == "clto" else []) + (["so"] if key[1] == "shared" else [])
     b = build.ensure(flavours, [])
     obsd = os.path.join(b["root"], "erase-" + build.harness_hash())
     os.makedirs(obsd, exist_ok=True)
